@@ -15,7 +15,8 @@ IMPORTS = ("From JV Require Import Lib.Base Lib.C20Text Lib.C20Regex Model.C20Ba
 RULE = ("restricted numbers: every restriction list of 1 or 2 comparisons over {>,>=,<,<=,==,!=} x 2 reference values x "
         "{int,float} x {and,or} (thorough: plus seeded 3-comparison lists), each with candidates around the bounds, "
         "integral/non-integral floats, bools, numeric strings (signs, blanks, underscores, exponents, inf/nan), junk, "
-        "None and lists, called directly as T(v) and through parse_args / parse_object; every generated type is created from a "
+        "None and lists, float-based types with references at 2^53 / 2^60 / 10^22 and INTEGER inputs that float() must round "
+        "(2^53+1, 2^53+3, 2^60+129, 10^23, the OverflowError boundary), called directly as T(v) and through parse_args / parse_object; every generated type is created from a "
         "caller-owned list object that is changed after the creation (append / clear / replace / drop+insert, optionally "
         "followed by the creation of the next type from the same list) or from a bare pair; the six predefined types by name; "
         "restricted strings: the predefined and generated regexes x strings incl. prefixes and trailing newlines, the regex "
@@ -24,8 +25,9 @@ RULE = ("restricted numbers: every restriction list of 1 or 2 comparisons over {
         "different flags under one name or two; "
         "Decimals up to 70 significant digits, also under a lowered / raised decimal context precision; "
         "registered types: ranges/timedeltas/Decimals/secrets/complex/UUID/bytes/bytearray/pathlib values incl. extremes, "
-        "serialised and read back through dump->parse_string, argv, a config file and a JSON dump, and handed to "
-        "parse_object as already typed values, plus the deserializers on mutated texts. A case is non-trivial unless it is a plain in-range int; distinct = distinct "
+        "serialised and read back through dump->parse_string, argv, a config file and a JSON dump, handed to "
+        "parse_object as already typed values, and parsed repeatedly (same and fresh parser) with the value handed out "
+        "modified in place between the parses when it is mutable, plus the deserializers on mutated texts. A case is non-trivial unless it is a plain in-range int; distinct = distinct "
         "(case, observation)")
 TRUSTED = [
     "Coq 8.16.1 kernel + vm_compute",
@@ -43,7 +45,10 @@ ASSUMPTIONS = [
     "strings avoid the non-ASCII characters that case-fold to ASCII (U+017F, U+212A, U+0130, U+0131); scoped inline flags, "
     "re.ASCII / re.LOCALE and anchors elsewhere than at the two ends of a pattern are not modelled (fail closed)",
     "text contains no non-ASCII decimal digits (Python's int()/float()/\\d accept them; the model's \\d is ASCII)",
-    "ints converted to float are below 2^53 in magnitude",
+    "an int handed to a float-based type is converted as Python does (nearest double, ties to even, OverflowError from "
+    "2^1024 - 2^970 on: Lib/C20Text.float_of_int, shared by model and spec as a Python primitive and tied per case); numeric "
+    "STRINGS and float literals beyond the fixed-point domain (|x| >= 10^9 with a fraction, or more than 15 digits) are not "
+    "modelled and not generated; floats beyond it are integer-valued doubles written with all their digits",
     "Decimal: float() and repr() are external functions; only the result of float() being a binary double is used "
     "(plus, for the pre-fix guard only, exactness on binary doubles of at most 15 digits); decimals are finite",
 ]
@@ -551,6 +556,48 @@ OBJ_VALUES = [pvi(5), pvi(0), pvi(-1), pvf("5.0"), pvf("5.5"), pvf("0.5"), {"b":
               pvs("abc"), {"other": "list"}, {"other": "dict"}, pvf("inf"), pvf("nan"), pvs(" 1 ")]
 
 
+# float-based types with references at the scale where doubles are sparse (2^53 and beyond) and INTEGER inputs that
+# float() has to round: the comparison is made on float(v), the value stored is float(v)
+P53 = 2 ** 53
+BIG_REFS = [pvf("%d.0" % P53), pvf("-%d.0" % P53), pvf("%d.0" % 2 ** 60), pvf("%d.0" % (P53 + 2)), pvi(P53), pvf("%d.0" % 10 ** 22)]
+BIG_INTS = [P53 - 1, P53, P53 + 1, P53 + 2, P53 + 3, P53 + 5, 2 * P53 + 2, 2 * P53 + 6, 2 ** 60 - 1, 2 ** 60 + 1, 2 ** 60 + 128,
+            2 ** 60 + 129, 2 ** 63 + 1, 10 ** 17 + 1, 10 ** 22, 10 ** 22 + 1, 10 ** 23, 2 ** 1023, 2 ** 1024 - 2 ** 970 - 1,
+            2 ** 1024 - 2 ** 970, 2 ** 1024, 10 ** 400, 5, 0]
+BIG_FLOATS = ["%d.0" % P53, "%d.0" % (P53 + 2), "%d.0" % 2 ** 60, "%d.0" % (2 ** 60 + 256), "%d.0" % 10 ** 22, "1.5", "inf"]
+
+
+def big_types(rng, tier):
+    types = []
+    for op in OPS:
+        for ref in BIG_REFS:
+            types.append(("float", "and", [(op, ref)]))
+    pairs = [(a, b) for a in OPS for b in OPS]
+    for a, b in (pairs if tier != "quick" else rng.sample(pairs, 10)):
+        types.append(("float", rng.choice(["and", "or"]), [(a, BIG_REFS[0]), (b, rng.choice(BIG_REFS[1:]))]))
+    for op in (">", "<=", "=="):
+        types.append(("int", "and", [(op, pvi(P53))]))      # int-based: no rounding at all
+    return types
+
+
+def gen_big(rng, tier):
+    cases = []
+    for base, join, restr in big_types(rng, tier):
+        vals = [pvi(s * z) for z in BIG_INTS for s in (1, -1)] + [pvf(f) for f in BIG_FLOATS] + [pvf("-" + f) for f in BIG_FLOATS[:5]]
+        if tier == "quick":
+            vals = rng.sample(vals, 24)
+        for v in vals:
+            if base == "int" and "f" in v and v["f"] not in ("1.5", "inf"):
+                pass
+            cases.append({"kind": "num", "base": base, "join": join, "restr": [[s, r] for s, r in restr], "value": v,
+                          "after": after_for(base, join, restr)})
+        for v in rng.sample(vals, 6):
+            if "i" in v and abs(int(v["i"])) >= 2 ** 1024 - 2 ** 970:
+                continue  # what an OverflowError inside the parser becomes is C03's business
+            cases.append({"kind": "numparse", "channel": "object", "base": base, "join": join,
+                          "restr": [[s, r] for s, r in restr], "value": v, "after": after_for(base, join, restr)})
+    return cases
+
+
 def gen_numparse(rng, tier):
     cases = []
     types = num_types(rng, "quick")
@@ -808,6 +855,7 @@ def generate(rng, tier):
     cases = []
     cases += gen_num(rng, tier)
     cases += gen_numparse(rng, tier)
+    cases += gen_big(rng, tier)
     cases += gen_rstr(rng, tier)
     cases += gen_rstrhist(rng, tier)
     cases += gen_ranges(rng, tier)
@@ -853,10 +901,20 @@ def g_fl(s):
         return "(FInf true)"
     if s == "nan":
         return "FNan"
-    d = Decimal(s) * 10 ** 6
-    if d != d.to_integral_value() or abs(d) >= 10 ** 15:
-        raise OutOfDomain(s)
-    return "(FFin %s)" % g_Z(int(d))
+    import decimal
+
+    with decimal.localcontext() as ctx:
+        ctx.prec = 400
+        d = Decimal(s) * 10 ** 6
+        if d != d.to_integral_value():
+            raise OutOfDomain(s)
+        if abs(d) >= 10 ** 15:
+            # beyond the fixed-point domain only integer-valued doubles written with all their digits are modelled
+            whole = Decimal(s)
+            if whole != whole.to_integral_value() or abs(whole) >= 2 ** 1024 or float(int(whole)) != int(whole) \
+                    or int(float(int(whole))) != int(whole):
+                raise OutOfDomain(s)
+        return "(FFin %s)" % g_Z(int(d))
 
 
 def g_pv(pv):
@@ -1005,11 +1063,30 @@ def shrink(case):
             yield dict(case, total=str(w))
 
 
+def search(rng, tier, broken):
+    """After a broken proof / tie: ONE fresh quick-sized batch (about a minute), whatever the tier; a case that contradicts
+    the spec inside the guard (or outside it in a class that is not a listed finding) is the failing input; failing that,
+    a case on which model and implementation differ."""
+    import sys
+
+    mod = sys.modules[__name__]
+    cases = generate(rng, "quick")
+    obs = observe(cases)
+    bm, bi, bo = framework.judge_cases(mod, cases, obs, tag="f")
+    known = framework.load_known_findings(PROP)
+    bad = sorted(set(bi) | {i for i, k in bo if FINDING_CLASSES.get(k) not in known}) or sorted(bm)
+    if not bad:
+        return None
+    i = min(bad, key=lambda j: len(json.dumps(cases[j])))
+    return {"case": cases[i], "observed": obs[i], "explain": describe(cases[i], obs[i])}
+
+
 META = {
     "level_text": "Theorems in coq/Properties/C20.v, all over the whole modelled space. Restricted numbers: C20_restricted_exact / "
                   "_reject / _idempotent / _parse — for EVERY restriction list, join and base type and every Python value, T(v) is "
                   "accepted with value b iff v converts to the base type as b (bool never, float to int only when integral, text "
-                  "when it is a numeral) and b satisfies the comparisons joined by and/or; a second cast changes nothing; the "
+                  "when it is a numeral, an int to float as the nearest double — rounding beyond 2^53 included) and b satisfies the "
+                  "comparisons joined by and/or; a second cast changes nothing; the "
                   "parser path (loaded value, retry with the original text) agrees; C20_operator_table: the operator table "
                   "regenerated from jsonargparse/typing.py denotes the six comparisons. Restricted strings: "
                   "C20_restricted_string_exact (derivative matcher proved sound and complete for the denotational language; "
@@ -1032,7 +1109,8 @@ META = {
                   "C20_decimal_guarded_roundtrip (either registration inside the judge's guard). Only exercised by the "
                   "correspondence: complex, UUID, bytes, bytearray and pathlib round trips (Python builtins), the yaml/json "
                   "quoting of the serialised texts on the four channels (dump->parse_string, argv, config file, json) plus the "
-                  "pass-through of an already typed value, that no dump/save/str/repr shows a secret, that a type keeps the "
+                  "pass-through of an already typed value, that a later parse of the same text is not affected by in-place changes "
+                  "of the value an earlier parse handed out, that no dump/save/str/repr shows a secret, that a type keeps the "
                   "comparisons stated at its creation when the caller later changes the list object it passed.",
     "level_note": "Trusted: Coq kernel/VM; faithfulness of the hand-written models outside the generated cases; the AST translators "
                   "(operator table, regexes, registry; fail closed); Python's int()/float() text grammars (modelled, tied per "
